@@ -122,6 +122,14 @@ def natural_matrix(ctx):
              then_set=dict(dt_max=100.0, solve_time=12.0)),
         dict(first=dict(dev="bar", dt_init=2.0 ** -6, dt_max=2.0 ** -6, window=3, solve_time=0.2, k=50),       # quiet first run
              then_set=dict(dt_max=0.5, solve_time=3.0)),
+        # retries exhausted NOT at step 0 of the recorded stage: at a step that is a multiple of save_every, and during
+        # thermalisation; tdgl.solve itself must raise (`solve` event), not return a truncated solution
+        dict(dev="bar", dt_init=2.0 ** -6, dt_max=4.0, window=1, current=20.0, field=1.0, retries=0, multiplier=0.9, k=1, solve_time=50.0),
+        dict(dev="barhole", dt_init=2.0 ** -5, dt_max=8.0, window=2, current=30.0, field=2.0, retries=1, multiplier=0.9, k=2, solve_time=50.0),
+        dict(dev="bar", dt_init=1.0, dt_max=4.0, window=2, current=30.0, field=2.0, retries=0, skip_time=5.0, solve_time=10.0, k=50),
+        # continue from a stored solution with the options loaded back from the file (fixed step must stay fixed)
+        dict(dev="bar", adaptive=False, dt_init=2.0 ** -6, current=3.0, field=0.3, solve_time=0.3, k=50, seed=dict(solve_time=0.2),
+             from_file=True),
         # movie settings: save_every smaller than adaptive_window (the window is the literal asked for, whatever the
         # options object says afterwards); then the same options object re-used with a larger save_every
         dict(dev="bar", dt_init=0.25, dt_max=100.0, window=10, current=20.0, field=1.0, solve_time=12.0, retries=10, k=2),
@@ -205,6 +213,15 @@ def _run(ctx):
     if not (sum(s["refusals"] for s in st) > 50 and "euler" in raised and sum(s["rule_steps"] for s in st) > 50
             and any(s["max_retries_in_a_step"] >= 3 for s in st)):
         raise core.MachineryFailure(f"natural runs did not exercise retries / the rule / exhaustion: {st} {raised}")
+    ex = [t for t in ntraces if t["raised"] == "euler"]
+
+    def raise_step(t):
+        return [e for e in t["ev"] if e["ev"] == "begin"][-1]["step"]
+    if not (any(raise_step(t) == 0 and not t["params"].get("skip_time") for t in ex)
+            and any(raise_step(t) > 0 and raise_step(t) % t["params"]["k"] == 0 for t in ex)
+            and any(t["params"].get("skip_time") and t["stats"]["restarts"] == 0 for t in ex)
+            and any(t["params"].get("from_file") and not t["params"].get("adaptive", True) and t["stats"]["updates"] > 5 for t in ntraces)):
+        raise core.MachineryFailure("exhaustion at step 0 / at a multiple of save_every / in thermalisation, or the continue-from-file run, is missing")
     movie = [t for t in ntraces if t["params"].get("adaptive", True) and t["params"].get("k", 5) < t["params"].get("window", 3)]
     if not (sum(1 for t in movie if t["stats"]["updates"] > 2 * t["params"]["window"] and t["stats"]["unclipped_rule_steps"] >= 10) >= 2
             and {t["params"]["k"] for t in movie} >= {1, 2, 3} and {t["params"]["window"] for t in movie} >= {5, 10}
